@@ -94,6 +94,7 @@ StreamsManagerBase<MAX_STREAMS> {
                            self.streams_manager_name, self.created_streams_count.load(Relaxed), self.finished_streams_count.load(Relaxed)),
         };
         let keep_streams_running = unsafe { &mut * self.keep_streams_running.get() };
+        #[cfg(feature = "verif")] crate::verif::yield_point();
         keep_streams_running[stream_id as usize] = true;
         self.sync_vacant_and_used_streams();
         stream_id
@@ -102,11 +103,13 @@ StreamsManagerBase<MAX_STREAMS> {
     /// Wakes the `stream_id` -- for instance, when an element arrives at an empty container.
     #[inline(always)]
     pub fn wake_stream(&self, stream_id: u32) {
+        #[cfg(feature = "verif")] crate::verif::yield_point();
         let wakers = unsafe { &* self.wakers.get() };
         match unsafe {wakers.get_unchecked(stream_id as usize)} {
             Some(waker) => waker.wake_by_ref(),
             None => {
                 // try again, syncing
+                #[cfg(feature = "verif")] crate::verif::probe("streams_manager.wake_stream.retried_under_lock");
                 ogre_sync::lock(&self.wakers_lock);
                 if let Some(waker) = unsafe {wakers.get_unchecked(stream_id as usize)} {
                     waker.wake_by_ref();
@@ -129,6 +132,7 @@ StreamsManagerBase<MAX_STREAMS> {
     /// Returns `false` if the `Stream` has been signaled to end its operations, causing it to report "out-of-elements" as soon as possible.
     #[inline(always)]
     pub fn keep_stream_running(&self, stream_id: u32) -> bool {
+        #[cfg(feature = "verif")] crate::verif::yield_point();
         unsafe {
             let keep_streams_running = &* self.keep_streams_running.get();
             *keep_streams_running.get_unchecked(stream_id as usize)
@@ -153,6 +157,7 @@ StreamsManagerBase<MAX_STREAMS> {
     /// Also guarantees that it will be awoken to react to the command immediately
     pub fn cancel_stream(&self, stream_id: u32) {
         let keep_streams_running = unsafe { &mut * self.keep_streams_running.get() };
+        #[cfg(feature = "verif")] crate::verif::yield_point();
         keep_streams_running[stream_id as usize] = false;
         self.wake_stream(stream_id);
     }
@@ -162,6 +167,7 @@ StreamsManagerBase<MAX_STREAMS> {
     pub fn cancel_all_streams(&self) {
         let used_streams = unsafe { &* self.used_streams.get() };
         for stream_id in used_streams.iter() {
+            #[cfg(feature = "verif")] crate::verif::yield_point();
             if *stream_id == u32::MAX {
                 break
             }
@@ -172,6 +178,7 @@ StreamsManagerBase<MAX_STREAMS> {
     #[inline(always)]
     pub fn register_stream_waker(&self, stream_id: u32, waker: &Waker) {
 
+        #[cfg(feature = "verif")] crate::verif::yield_point();
         let wakers = unsafe { &mut * self.wakers.get() };
 
         macro_rules! set {
@@ -183,6 +190,7 @@ StreamsManagerBase<MAX_STREAMS> {
                 // the producer might have just woken the old version of the waker,
                 // so the following waking up line is needed to assure the consumers won't ever hang
                 // (as demonstrated by tests)
+                #[cfg(feature = "verif")] crate::verif::probe("streams_manager.register_stream_waker.self_wake");
                 waker.wake_by_ref();
             }
         }
@@ -241,12 +249,14 @@ StreamsManagerBase<MAX_STREAMS> {
             match vacant_iter.next() {
                 Some(next_vacant_stream_id) => {
                     for used_stream_id in i .. *next_vacant_stream_id {
+                        #[cfg(feature = "verif")] crate::verif::yield_point();
                         last_used_stream_id += 1;
                         unsafe { *used_streams.get_unchecked_mut(last_used_stream_id as usize)  = used_stream_id };
                     }
                     i = *next_vacant_stream_id + 1;
                 }
                 None => {
+                    #[cfg(feature = "verif")] crate::verif::yield_point();
                     last_used_stream_id += 1;
                     unsafe { *used_streams.get_unchecked_mut(last_used_stream_id as usize) = i };
                     i += 1;
@@ -254,6 +264,7 @@ StreamsManagerBase<MAX_STREAMS> {
             }
         }
         for i in (last_used_stream_id + 1) as usize .. MAX_STREAMS {
+            #[cfg(feature = "verif")] crate::verif::yield_point();
             unsafe { *used_streams.get_unchecked_mut(i) = u32::MAX };
         }
         ogre_sync::unlock(&self.streams_lock);
@@ -265,6 +276,8 @@ StreamsManagerBase<MAX_STREAMS> {
             let pending_items_count = pending_items_counter();
             if pending_items_count > 0 {
                 self.wake_all_streams();
+                #[cfg(feature = "verif")] crate::verif::sleep(Duration::from_millis(1)).await;
+                #[cfg(not(feature = "verif"))]
                 tokio::time::sleep(Duration::from_millis(1)).await;
             } else {
                 break 0
@@ -297,6 +310,8 @@ StreamsManagerBase<MAX_STREAMS> {
         self.cancel_stream(stream_id);
         loop {
             self.wake_stream(stream_id);
+            #[cfg(feature = "verif")] crate::verif::sleep(Duration::from_millis(1)).await;
+            #[cfg(not(feature = "verif"))]
             tokio::time::sleep(Duration::from_millis(1)).await;
             if is_vacant() {
                 break true
@@ -317,6 +332,8 @@ StreamsManagerBase<MAX_STREAMS> {
             if timeout != Duration::ZERO && start.elapsed() > timeout {
                 break
             }
+            #[cfg(feature = "verif")] crate::verif::sleep(Duration::from_millis(1)).await;
+            #[cfg(not(feature = "verif"))]
             tokio::time::sleep(Duration::from_millis(1)).await;
         }
         self.running_streams_count()
